@@ -41,7 +41,7 @@ PROBES = ["interned_default_returned", "init_returned_itself", "incompatible_ini
           "namespace_with_converting_constructor", "plain_mixin_among_bases",
           "render_args_subclass", "explicit_none_before_namespaces",
           "unknown_field_is_another_class_field", "unknown_field_named_like_an_attribute",
-          "base_default_set_as_initial_set"]
+          "base_default_set_as_initial_set", "set_with_unhashable_field_value"]
 COMPONENTS = {
     "real": ["RenderArgs (__new__/__init__ interning, update, convert, __eq__, __hash__, "
              "__contains__, __getitem__)", "ArgsNamespace (__or__, __ror__, __pos__, update, "
@@ -54,6 +54,9 @@ ASSUMPTIONS = ["namespace classes are associated before their render class is su
 
 def args_classes_early(classes):
     return [i for i, c in enumerate(classes) if c["fields"] is not None]
+
+
+UNHASHABLE = [7]      # a field value like any other; a set holding it cannot be hashed
 
 
 def run(ch, ctx, fault=None):
@@ -281,7 +284,7 @@ def run(ch, ctx, fault=None):
                 used_old = True
                 names = list(classes[i]["fields"])
                 # (None is a value like any other: an optional field reset to "nothing")
-                upd = {n: ch.pick("uval", (0, 1, 2, 3, 4, None)) for n in names
+                upd = {n: ch.pick("uval", (0, 1, 2, 3, 4, None, UNHASHABLE)) for n in names
                        if ch.bool("give", 0.5)}
                 if ch.bool("unknown", 0.1):
                     bad = dict(upd)
@@ -360,7 +363,7 @@ def run(ch, ctx, fault=None):
                 j = ch.int("cls", 0, len(classes) - 1)
                 used_old = True
                 fields = classes[j]["fields"]
-                upd = {n: ch.pick("uval", (0, 1, 2, 3, 4, None)) for n in (fields or {"f0": 0})
+                upd = {n: ch.pick("uval", (0, 1, 2, 3, 4, None, UNHASHABLE)) for n in (fields or {"f0": 0})
                        if ch.bool("give", 0.6)}
                 res = attempt(lambda: obj.update(classes[j]["cls"], **upd), op)
                 desc = "RenderArgs(%s).update(%s, %s)" % (classes[i]["name"], classes[j]["name"], upd)
@@ -478,7 +481,12 @@ def run(ch, ctx, fault=None):
                     classes[a[1]]["name"], a[2], classes[b[1]]["name"], b[2])
                 check((a[0] == b[0]) == eq_model, "equality_differs_from_model",
                       {"op": desc, "got": a[0] == b[0]}, "eq")
-                if eq_model:
+                if eq_model and any(isinstance(v, list) for f in a[2].values() for v in f.values()):
+                    # "hashable iff its namespaces are"
+                    ctx.probe("set_with_unhashable_field_value")
+                    check(attempt(lambda: hash(a[0]), op) == ("exc", "TypeError"),
+                          "set_with_unhashable_value_hashed", {"op": desc}, "hash")
+                elif eq_model:
                     ctx.probe("equal_sets_hash_equal")
                     check(hash(a[0]) == hash(b[0]), "equal_sets_hash_differently", {"op": desc},
                           "hash")
@@ -490,7 +498,10 @@ def run(ch, ctx, fault=None):
                     eqm = x[1] == y[1] and x[2] == y[2]
                     check((x[0] == y[0]) == eqm, "namespace_equality_differs_from_model",
                           {"x": x[2], "y": y[2]}, "eq")
-                    if eqm:
+                    if eqm and any(isinstance(v, list) for v in x[2].values()):
+                        check(attempt(lambda: hash(x[0]), op) == ("exc", "TypeError"),
+                              "namespace_with_unhashable_value_hashed", {}, "hash")
+                    elif eqm:
                         check(hash(x[0]) == hash(y[0]), "equal_namespaces_hash_differently", {},
                               "hash")
             elif op == "contains":
